@@ -155,7 +155,7 @@ def shrink(mod, seed, tape, target, tier, max_evals=300, max_s=40.0):
 
 
 def write_replay(mod, seed, tape, result, viol, tier, minimised_evals=None):
-    d = os.path.join(VERIF, "replays", mod.ID)
+    d = os.path.join(os.environ.get("VERIF_REPLAY_DIR") or os.path.join(VERIF, "replays"), mod.ID)
     os.makedirs(d, exist_ok=True)
     body = {
         "property": mod.ID,
@@ -313,6 +313,7 @@ def run_check(check_id, tier="quick", base_seed=0, jobs=None, budget_s=None, run
     known_matched = []
     exit_code = 0
     t_min = time.time()
+    n_min = 0
     for key, items in sorted(groups.items()):
         r, v = items[0]
         k = match_known(known, mod.ID, v)
@@ -322,8 +323,11 @@ def run_check(check_id, tier="quick", base_seed=0, jobs=None, budget_s=None, run
             continue
         n_viol += len(items)
         tape = r.get("tape") or {}
-        if time.time() - t_min < 150:
-            best, final, evals = shrink(mod, r["seed"], tape, v, tier)
+        no_shrink = os.environ.get("VERIF_NO_SHRINK")
+        budget_total = 45 if tier == "quick" else 240
+        if not no_shrink and time.time() - t_min < budget_total and n_min < 6:
+            n_min += 1
+            best, final, evals = shrink(mod, r["seed"], tape, v, tier, max_s=12.0 if tier == "quick" else 45.0)
         else:
             best, final, evals = tape, safe_run(mod, r["seed"], tape, tier, want_case=True), 0
         vv = next((x for x in final.get("viol", []) if _sigkey(x) == key), v)
@@ -334,9 +338,12 @@ def run_check(check_id, tier="quick", base_seed=0, jobs=None, budget_s=None, run
 
     # evidence
     nontriv = {}
+    nontriv_n = {}
     for r in results:
         if r.get("nontrivial"):
-            nontriv.setdefault(r.get("case_digest"), r["seed"])
+            if r.get("case_digest") not in nontriv:
+                nontriv[r.get("case_digest")] = r["seed"]
+                nontriv_n[r.get("case_digest")] = int(r.get("distinct_n", 1))
     sample_seeds = sorted(nontriv.values())[:3] or [r["seed"] for r in results[:2]]
     samples = []
     for s in sample_seeds:
@@ -357,8 +364,9 @@ def run_check(check_id, tier="quick", base_seed=0, jobs=None, budget_s=None, run
         "seed": base_seed,
         "level": mod.LEVEL,
         "coverage": {
-            "evaluations": len(results),
-            "distinct_nontrivial": len(nontriv),
+            "evaluations": sum(int(r.get("evals", 1)) for r in results),
+            "distinct_nontrivial": sum(nontriv_n.values()),
+            "runs": len(results),
             "rule": mod.RULE,
             "samples": samples,
             "seeds": {"first": results[0]["seed"] if results else None, "last": results[-1]["seed"] if results else None,
@@ -385,8 +393,9 @@ def run_check(check_id, tier="quick", base_seed=0, jobs=None, budget_s=None, run
         "wall_s": round(wall, 2),
         "violations": n_viol,
     }
-    os.makedirs(os.path.join(VERIF, "evidence"), exist_ok=True)
-    with open(os.path.join(VERIF, "evidence", mod.ID + ".json"), "w") as f:
+    evdir = os.environ.get("VERIF_EVIDENCE_DIR") or os.path.join(VERIF, "evidence")
+    os.makedirs(evdir, exist_ok=True)
+    with open(os.path.join(evdir, mod.ID + ".json"), "w") as f:
         json.dump(ev, f, indent=1, default=repr)
     for ln in lines:
         print(ln)
